@@ -83,6 +83,28 @@ pub fn handle(t: &[Sexp]) -> Option<String> {
          let r: Vec<i64> = percentile(p)(v.iter().map(|x| (x,))).collect();
          Some(show_opt(one(r)?))
       },
+      // one aggregator closure applied to several groups in turn (the generated code builds the aggregator once per rule evaluation site
+      // and calls it for every binding of the outer clauses); lists separated by the atom `/`
+      "percentile_seq" => {
+         let pn = t.get(1)?.nat()?;
+         let pd = t.get(2)?.nat()?;
+         let mut lists: Vec<Vec<i64>> = vec![vec![]];
+         for x in &t[3..] {
+            if x.atom() == Some("/") {
+               lists.push(vec![]);
+            } else {
+               lists.last_mut().unwrap().push(x.int()?);
+            }
+         }
+         let p = pn as f64 / pd as f64;
+         let f = percentile(p);
+         let mut outs = vec![];
+         for v in &lists {
+            let r: Vec<i64> = f(v.iter().map(|x| (x,))).collect();
+            outs.push(show_opt(one(r)?));
+         }
+         Some(outs.join(" ; "))
+      },
       _ => None,
    }
 }
